@@ -18,6 +18,7 @@ CONSTANTS K,          \* ticks per turn
           Ratios,     \* set of <<num, den>> = |f| / f_pulse (in phase or not)
           MaxPulses,
           MaxTurns,   \* the expansion is explored up to this many rotations
+          Pick,       \* 0: exhaustive; k > 0 (-simulate): k random slits / setups per step
           Bug         \* "none" | "nowrap" | "perpulse" | "swap" | "phasesign" | "gap"
 
 VARIABLES slits, setup, stage, reported
@@ -69,12 +70,24 @@ Expand(np) ==
     /\ stage' = "expanded"
     /\ UNCHANGED <<slits, setup>>
 
-Next == \/ (stage = "slits" /\ \E b \in 0..(K-1) : \E e \in (b+1)..(b+K-1) : AddSlit(b, e))
-        \/ Reject
-        \/ \E bp \in BeamPos, ph \in Phases, cw \in BOOLEAN, r \in Ratios : Construct(bp, ph, cw, r)
-        \/ Refuse
-        \/ Direct
-        \/ \E np \in 1..MaxPulses : Expand(np)
+AddAnySlit ==
+    /\ stage = "slits"
+    /\ IF Pick = 0 THEN \E b \in 0..(K-1) : \E e \in (b+1)..(b+K-1) : AddSlit(b, e)
+       ELSE \E k \in 1..Pick :
+              \* (bound through singleton sets so that each random draw is made once)
+              \E lo \in { IF Len(slits) = 0 THEN 0 ELSE slits[Len(slits)][2] + 1 } :     \* mostly valid sets
+              \E b \in { IF lo < K - 1 /\ RandomElement(1..4) > 1 THEN RandomElement(lo..(K-1))
+                          ELSE RandomElement(0..(K-1)) } :
+              \E e \in { b + RandomElement(1..((K + 3) \div 4)) } : AddSlit(b, e)
+ConstructAny ==
+    IF Pick = 0
+    THEN \E bp \in BeamPos, ph \in Phases, cw \in BOOLEAN, r \in Ratios : Construct(bp, ph, cw, r)
+    ELSE \E k \in 1..Pick : \E cw \in BOOLEAN :
+            \E bp \in { RandomElement(BeamPos) } : \E ph \in { RandomElement(Phases) } :
+            \E r \in { RandomElement(Ratios) } : Construct(bp, ph, cw, r)
+ExpandAny    == \E np \in 1..MaxPulses : Expand(np)
+
+Next == AddAnySlit \/ Reject \/ ConstructAny \/ Refuse \/ Direct \/ ExpandAny
 
 Spec == Init /\ [][Next]_vars
 
